@@ -41,6 +41,7 @@ Accept(r) ==
                       /\ IsOk(r)
                       /\ JarLawWith(jar, r.nests, JarOut(r), "jin" \in DOMAIN r)
                       /\ ("others" \in DOMAIN r) => r.got.others = r.others           \* entries that are no classes pass through
+                      /\ ("dirs" \in DOMAIN r) => SeqToSet(r.got.dirs) = SeqToSet(r.dirs)
          [] r.op = "agree" ->
               LET jar == IF "jin" \in DOMAIN r THEN JarIn(r) ELSE RecipeJar(r.jar)
                   M == NormTree(r.tree)
@@ -83,7 +84,9 @@ Expected(r) ==
                THEN [st |-> "ok", nests |-> [c \in {Target(M, r.nests[i].cls) : i \in 1..Len(r.nests)} |->
                                                 LawNest(M, r.nests[CHOOSE i \in 1..Len(r.nests) : Target(M, r.nests[i].cls) = c])]]
                ELSE Weak
-      [] r.op = "read" -> LET o == ReadOp(r.text) IN IF o.ok THEN [st |-> "ok", nests |-> ByClass(o.v)] ELSE [st |-> "err"]
+      [] r.op = "read" -> LET o == ReadOp(r.text)
+                          IN IF \E i \in 1..Len(Lines(r.text)) : OnlyDescIllFormed(Lines(r.text)[i]) THEN Weak
+                             ELSE IF o.ok THEN [st |-> "ok", nests |-> ByClass(o.v)] ELSE [st |-> "err"]
       [] OTHER -> <<>>
 
 Init == l = 1 /\ rej = 0
